@@ -174,7 +174,7 @@ def gen_catalogue(seed):
                 # by an earlier load is finished when a later load looks names up in it)
                 cfg["provider"] = ["fqnuri", "plainuri", "fqnuri"][i - 14]
                 cfg["global_repository"] = True
-                cfg["classes"] = [[("Box", "slots"), ("Def", "plain")], [("Use", "slots"), ("Box", "frozen"), ("Def", "slots")],
+                cfg["classes"] = [[("Box", "slots"), ("Def", "own-dunders")], [("Use", "slots"), ("Box", "frozen"), ("Def", "slots")],
                                   [("Box", "dataclass"), ("Def", "frozen"), ("Use", "own-dunders")]][i - 14]
         else:
             cfg["provider"] = "default"
@@ -234,7 +234,7 @@ def gen_catalogue(seed):
     # them (or none): what an earlier load imported must not be visible to a later load
     lib = {
         "/sim/w3m/lib1.m": "def x def only1 box bx { def y }",
-        "/sim/w3m/lib2.m": "\n\ndef x = 5 def only2 box bx { def y = 2 }",
+        "/sim/w3m/lib2.m": "\n\ndef x = 12 def only2 box bx { def y = 9 }",
         "/sim/w3m/sub/lib3.m": 'import "../lib1.m" def z use uz : x',
     }
     multi = [
@@ -246,6 +246,8 @@ def gen_catalogue(seed):
         {"kind": "imports-both-order", "path": "/sim/w3m/f.m", "text": 'import "lib2.m" import "lib1.m" use uf : only1 , only2'},
         {"kind": "syntax-in-import", "path": "/sim/w3m/g.m", "text": 'import "bad.m" use ug : x'},
     ]
+    # a load that fails in reference resolution *after* its import has been loaded
+    multi.append({"kind": "imports-lib2-dangling", "path": "/sim/w3m/i.m", "text": 'import "lib2.m" def mine = 30 use ui : x , nothere'})
     multi.append({"kind": "imports-lib1-boom", "path": "/sim/w3m/h.m", "text": 'import "lib1.m" def boom use uh : x'})
     lib["/sim/w3m/bad.m"] = "def x %"
     # search-path inputs: "lib.m" next to the importing file wins, otherwise the one on the search path
